@@ -85,7 +85,8 @@ def _race_reports(ctx):
         for block in txt.split("=================="):
             if "DATA RACE" not in block:
                 continue
-            frames = [ln.strip() for ln in block.splitlines() if "/repo/" in ln]
+            repo = os.path.realpath(core.REPO) + "/"
+            frames = [ln.strip() for ln in block.splitlines() if repo in ln]
             if frames:
                 out.append(dict(frames=frames[:6], text=block[:3000]))
     return out
